@@ -40,7 +40,7 @@ def replay(path):
     if str(rp.get("engine", "")).startswith("sim"):
         import simgen
         eng = rp["engine"].split("/")
-        exe, _ = simgen.build(eng[1], eng[2])
+        exe, _ = simgen.build(eng[1], eng[2], __import__('props._sim', fromlist=['NEEDS']).NEEDS['c11sim'])
         p = subprocess.run([exe, "c11sim", "--seed", str(rp["seed"]), "--tier", rp["tier"], "--only", str(rp["case_index"])], stdout=subprocess.PIPE, text=True)
         print(p.stdout[-2500:])
         return 1 if ('"verdict":"violated"' in p.stdout or p.returncode != 0) else 0
